@@ -81,7 +81,7 @@ def _on_alarm(sig, frm):
     raise _Watchdog()
 
 
-WATCHDOG_S = 40
+WATCHDOG_S = 20
 
 
 class LexerHang(Exception):
